@@ -1033,6 +1033,12 @@ class Interp:
         f = path.facts.get(t)
         if f is not None and f[0] == "eq":
             return f[1]
+        if path.assume:
+            a_ = path.assume.get(t)
+            if a_ is None and t[0] == "w":
+                a_ = path.assume.get(t[1])
+            if a_ is not None and all(b_ in (0, 1) for b_ in a_):
+                return sum(b_ << i_ for i_, b_ in enumerate(a_))
         if t[0] == "discr":
             r = path.refine.get(t[1])
             if r is not None:
@@ -1046,6 +1052,28 @@ class Interp:
             r = self.cmp_oracle(path, "Lt", t[2], t[3])  # unsigned a - b overflows iff a < b
             if r is not None:
                 return r
+        if t[0] == "bin" and t[1] in ("Eq", "Ne") and is_int(t[3]) and t[3][1] == 0:
+            # x == 0 through value-preserving wrappers: a widened (zero- or sign-extended) value is zero iff the value is
+            a = t[2]
+            for _ in range(6):
+                if a[0] == "w" and isinstance(a[1], tuple):
+                    a = a[1]
+                elif a[0] == "cast" and isinstance(a[2], int) and isinstance(a[4], int) and a[4] >= a[2]:
+                    a = a[1]
+                else:
+                    break
+                for cand in (a, W(a, 64)):
+                    for opn in ("Eq", "Ne"):
+                        for wz in (8, 16, 32, 64, 128):
+                            f2 = path.facts.get(("bin", opn, cand, INT(0, wz), 8))
+                            if f2 is not None and f2[0] == "eq":
+                                return int(bool(f2[1]) == (opn == t[1]))
+                    f3 = path.facts.get(cand)
+                    if f3 is not None:
+                        if f3[0] == "eq":
+                            return int((f3[1] == 0) == (t[1] == "Eq"))
+                        if f3[0] == "ne" and 0 in f3[1]:
+                            return int(t[1] == "Ne")
         if t[0] in ("bin", "un", "cast", "w"):
             bv = bitvec(t, path)
             return bv_value(bv)
@@ -1088,24 +1116,26 @@ class Interp:
                                 cbit = (b[1] >> i) & 1
                                 val_i = cbit if truth else 1 - cbit
                                 path.bitfacts[(bit[0], bit[1])] = (1 - val_i) if bit[2] else val_i
-                elif truth and a[0] == "bin" and a[1] in ("Shr", "ShrUnchecked") and is_int(a[3]):
-                    # (x >> k) == c: the bits of x from k upwards are those of c (for c = 0: x < 2^k)
+                elif truth and a[0] in ("bin", "cast") and not (a[0] == "bin" and a[1] in CMP_OPS):
+                    # a value whose bits are (copies of) bits of other values equals a constant: those bits are known --
+                    # (x >> k) == c, ((x >> 8k) as u8) == 0, ... ; when every bit of x from some n upwards is known to be
+                    # clear, x < 2^n
                     xb = bitvec(a, Path())
-                    srcs = {}
+                    srcs = set()
                     for i, bit in enumerate(xb):
                         if bit is not None and bit not in (0, 1):
                             cbit = (b[1] >> i) & 1
                             path.bitfacts[(bit[0], bit[1])] = (1 - cbit) if bit[2] else cbit
-                            srcs.setdefault(bit[0], set()).add(bit[1])
-                    if b[1] == 0:
-                        for src, known0 in srcs.items():
-                            wsrc = width_of(W(src, 64), 64) if src[0] != "w" else width_of(src)
-                            top = a[3][1]
-                            if all(i in known0 for i in range(top, min(wsrc, 64))):
-                                for key in (src, W(src, 64)):
-                                    old_ = path.maxbits.get(key)
-                                    if old_ is None or top < old_:
-                                        path.maxbits[key] = top
+                            srcs.add(bit[0])
+                    for src in srcs:
+                        top = 64
+                        while top > 0 and path.bitfacts.get((src, top - 1)) == 0:
+                            top -= 1
+                        if top < 64:
+                            for key in (src, W(src, 64)):
+                                old_ = path.maxbits.get(key)
+                                if old_ is None or top < old_:
+                                    path.maxbits[key] = top
                 if truth:
                     self.assume_cond(path, a, b[1])
                 else:
@@ -1126,6 +1156,26 @@ class Interp:
                         path.maxbits[key] = n
                         if a[0] == "w":
                             path.maxbits[a[1]] = n
+                        # through casts that lose nothing (the inner value is known to fit the target width): the bound holds
+                        # for the inner value as well
+                        cur_ = a
+                        for _ in range(4):
+                            if cur_[0] == "w" and isinstance(cur_[1], tuple):
+                                cur_ = cur_[1]
+                            elif cur_[0] == "cast" and isinstance(cur_[4], int):
+                                inner_ = cur_[1]
+                                imb = path.maxbits.get(inner_)
+                                fits = (isinstance(cur_[2], int) and cur_[2] <= cur_[4] and not cur_[3]) or (imb is not None and imb <= cur_[4])
+                                if not fits:
+                                    break
+                                cur_ = inner_
+                            else:
+                                break
+                            o2_ = path.maxbits.get(cur_)
+                            if o2_ is None or n < o2_:
+                                path.maxbits[cur_] = n
+                                if cur_[0] == "w" and isinstance(cur_[1], tuple):
+                                    path.maxbits[cur_[1]] = n
         if t[0] == "discr" and val is not None:
             adt = t[2]
             if adt:
@@ -1163,7 +1213,7 @@ class Interp:
                 loops = self.loops_of(body)
                 lp = loops.get(bb)
                 if lp is not None:
-                    if n < self.widen_at or (n < 64 and path.tags.get(("concrete_loop", frame.fid))):
+                    if n < self.widen_at or (n < 200 and path.tags.get(("concrete_loop", frame.fid))):
                         pass  # still unrolling precisely (always, for a loop driven by an iterator over known elements)
                     elif n == self.widen_at:
                         # widen: forget everything the loop body assigns, run one generic iteration
@@ -1229,6 +1279,23 @@ class Interp:
                 # fork
                 fact = path.facts.get(d)
                 excluded = set(fact[1]) if fact is not None and fact[0] == "ne" else set()
+                tbd = ty_bits(self.operand_ty(frame, t["discr"])) if self.cmp_oracle is not None else None
+                if self.cmp_oracle is not None and not is_int(d) and tbd and tbd[0] > 8 and d[0] != "discr":
+                    # `match x { 0 => .., n => .. }` on a quantity the class oracle knows: the same question as `x == 0`
+                    taken = None
+                    for v, tg in zip(vals, tgts):
+                        ans = self.cmp_oracle(path, "Eq", d, INT(v, tbd[0]))
+                        if ans == 1:
+                            taken = tg
+                            break
+                        if ans == 0:
+                            excluded.add(v)
+                    if taken is not None:
+                        bb = taken
+                        continue
+                    if all(v in excluded for v in vals):
+                        bb = tgts[-1]
+                        continue
                 alts = []
                 for v, tg in zip(vals, tgts):
                     if v in excluded:
@@ -1306,6 +1373,21 @@ class Interp:
         if "indirect" in f:
             fnv = self.eval_operand(path, frame, f["indirect"])
             path.events.append(("indirect_call", fnv, tuple(args), site, body["path"]))
+            # a function pointer whose value is known (a closure or fn item coerced to `fn(..)`): the call is that body
+            tgt_ = self._deref_all(path, fnv)
+            for _ in range(3):
+                if tgt_[0] in ("cast", "w") and isinstance(tgt_[1], tuple):
+                    tgt_ = tgt_[1]
+            if tgt_[0] == "fn" or (tgt_[0] == "agg" and str(tgt_[1]).startswith("closure:")):
+                res_ = self._call_closure_value(path, frame, t, tgt_, list(args), depth, "indirect")
+                if res_ is not None:
+                    def gen_ind():
+                        for o in res_:
+                            if o.kind == "return":
+                                yield from self.cont(frame, t, o.path, o.value, depth)
+                            else:
+                                yield o
+                    return gen_ind()
             return self._opaque(path, frame, t, "indirect", args, depth, havoc=True)
         if f.get("def") in self.FN_TRAIT_CALLS:
             if self.intercept_fn_calls and self.intercept is not None:
@@ -1393,6 +1475,13 @@ class Interp:
             return None
         self.write_place(path, frame, t["dest"], val)
         return t["t"]
+
+    def _opaque_cont(self, path, frame, t, name, args, depth, havoc=True):
+        """generator form of _opaque for use inside summaries: the call stays opaque, execution goes on behind it"""
+        nb = self._opaque(path, frame, t, name, args, depth, havoc)
+        if nb is None:
+            return
+        yield from self._run_from(frame, nb, path, depth)
 
     def touches_heap(self, a):
         return a[0] == "ref" and a[1][0][0] in ("H", "D")
@@ -1553,7 +1642,7 @@ class Interp:
             v = self._deref_all(path, args[0])
             while v[0] == "deref":
                 v = v[1]
-            if v[0] == "agg" and v[1] == "array" and len(v[3]) <= 64:
+            if v[0] == "agg" and v[1] == "array" and len(v[3]) <= 160:
                 byref = shortn == "iter" or args[0][0] == "ref"
                 elems = []
                 for i, e in enumerate(v[3]):
@@ -1587,7 +1676,7 @@ class Interp:
                         for p_, acc_ in states:
                             res_ = self._call_closure_value(p_, frame, t, args[1], [e_], depth, "array-map")
                             if res_ is None:
-                                yield from self._opaque(p_, frame, t, name, args, depth, havoc=True)
+                                yield from self._opaque_cont(p_, frame, t, name, args, depth, havoc=True)
                                 return
                             for o_ in res_:
                                 if o_.kind == "return":
@@ -1641,6 +1730,24 @@ class Interp:
                 if g is not None:
                     return g
         # --- small arrays / byte tuples held as aggregates
+        if shortn in ("split_at", "split_first", "split_last") and args and ("slice" in name or "[T]" in name or "array" in name):
+            base = self._deref_all(path, args[0])
+            while base[0] == "deref" and isinstance(base[1], tuple):
+                base = base[1]
+            if base[0] == "agg" and base[1] == "array":
+                if shortn == "split_at" and len(args) == 2 and is_int(self._deref_all(path, args[1])):
+                    n_ = self._deref_all(path, args[1])[1]
+                    if n_ <= len(base[3]):
+                        pair = ("agg", "tuple", None, (("agg", "array", None, tuple(base[3][:n_])), ("agg", "array", None, tuple(base[3][n_:]))))
+                        return self._multi(path, frame, t, [(pair, path)], depth)
+                    return self._multi(path, frame, t, [("panic", "X", "split_at beyond the length", path)], depth)
+                if shortn in ("split_first", "split_last") and len(args) == 1:
+                    if not base[3]:
+                        return self._multi(path, frame, t, [(NONE, path)], depth)
+                    one, rest = (base[3][0], base[3][1:]) if shortn == "split_first" else (base[3][-1], base[3][:-1])
+                    tmp = ("L", ("split-elem", frame.fid, t["sp"], len(path.events)), 0)
+                    path.store[tmp] = one
+                    return self._multi(path, frame, t, [(SOME(("agg", "tuple", None, (("ref", (tmp, ()), False), ("agg", "array", None, tuple(rest))))), path)], depth)
         if shortn in ("index", "index_mut") and "ops::Index" in name and len(args) == 2:
             base = self._deref_all(path, args[0])
             if base[0] == "agg" and base[1] == "array":
@@ -1960,6 +2067,37 @@ class Interp:
         if self.concrete_ranges and name.endswith("::into_iter") and len(args) == 1 and args[0][0] == "agg" \
                 and args[0][1] == "adt:std::ops::Range":
             return self._multi(path, frame, t, [(args[0], path)], depth)
+        # --- slice::from_ref(&x) / array::from_ref: a one-element view
+        if name in ("std::slice::from_ref", "core::slice::from_ref", "std::array::from_ref", "core::array::from_ref",
+                    "std::slice::from_mut", "core::slice::from_mut") and len(args) == 1:
+            return self._multi(path, frame, t, [(("agg", "array", None, (self._deref_all(path, args[0], 1) if args[0][0] == "ref" else args[0],)), path)], depth)
+        # --- bool::then / then_some
+        if name in ("std::bool::<impl bool>::then", "core::bool::<impl bool>::then", "std::bool::<impl bool>::then_some",
+                    "core::bool::<impl bool>::then_some") and len(args) == 2:
+            def gen_then():
+                d_ = self.decide(path, args[0])
+                alts = [(d_, path)]
+                if d_ is None:
+                    p2 = path.copy()
+                    self.assume_cond(path, args[0], 1)
+                    self.assume_cond(p2, args[0], 0)
+                    alts = [(1, path), (0, p2)]
+                for dv, pp in alts:
+                    if not dv:
+                        yield from self.cont(frame, t, pp, NONE, depth)
+                    elif name.endswith("then_some"):
+                        yield from self.cont(frame, t, pp, SOME(args[1]), depth)
+                    else:
+                        res_ = self._call_closure_value(pp, frame, t, args[1], [], depth, "then")
+                        if res_ is None:
+                            yield from self._opaque_cont(pp, frame, t, name, args, depth, havoc=True)
+                            continue
+                        for o in res_:
+                            if o.kind == "return":
+                                yield from self.cont(frame, t, o.path, SOME(o.value), depth)
+                            else:
+                                yield o
+            return gen_then()
         # --- NonZero<uN>: the same integer, known not to be zero
         if name.startswith("std::num::NonZero::<T>::") and args:
             meth = name.rsplit("::", 1)[1]
@@ -2087,7 +2225,7 @@ class Interp:
                         p.store[tmp] = payload
                         res = self._call_closure_value(p, frame, t, args[1], [("ref", (tmp, ()), False)], depth, "filter")
                         if res is None:
-                            yield from self._opaque(p, frame, t, name, args, depth, havoc=True)
+                            yield from self._opaque_cont(p, frame, t, name, args, depth, havoc=True)
                             continue
                         for o in res:
                             if o.kind != "return":
@@ -2161,6 +2299,39 @@ class Interp:
                             else:
                                 yield o
                 return gen_map()
+            if meth in ("and_then", "or_else", "map_or_else", "is_some_and", "is_ok_and", "is_none_or") and len(args) in (2, 3):
+                def gen_chain(meth=meth):
+                    for vi, payload, p in self.split_result(path, v, OPTION if is_opt else RESULT):
+                        hit = (vi == good) if meth in ("and_then", "is_some_and", "is_ok_and", "is_none_or") else (vi != good)
+                        if meth == "map_or_else":
+                            clos_ = args[2] if vi == good else args[1]
+                            cargs_ = [payload] if (vi == good or not is_opt) else []
+                        elif not hit:
+                            if meth == "and_then":
+                                yield from self.cont(frame, t, p, v if v[0] == "agg" else (NONE if is_opt else ERR(payload)), depth)
+                            elif meth == "or_else":
+                                yield from self.cont(frame, t, p, v if v[0] == "agg" else (SOME(payload) if is_opt else OK(payload)), depth)
+                            else:
+                                yield from self.cont(frame, t, p, INT(1 if meth == "is_none_or" else 0, 8), depth)
+                            continue
+                        else:
+                            clos_ = args[1]
+                            cargs_ = [payload] if not (meth == "or_else" and is_opt) else []
+                        res_ = self._call_closure_value(p, frame, t, clos_, cargs_, depth, meth)
+                        if res_ is None:
+                            yield from self._opaque_cont(p, frame, t, name, args, depth, havoc=True)
+                            continue
+                        for o in res_:
+                            if o.kind == "return":
+                                yield from self.cont(frame, t, o.path, o.value, depth)
+                            else:
+                                yield o
+                return gen_chain()
+            if meth in ("ok", "err") and not is_opt and len(args) == 1:
+                outs = []
+                for vi, payload, p in self.split_result(path, v, RESULT):
+                    outs.append((SOME(payload) if (vi == 0) == (meth == "ok") else NONE, p))
+                return self._multi(path, frame, t, outs, depth)
             if meth == "map_or" and len(args) == 3:
                 def gen_map_or():
                     for vi, payload, p in self.split_result(path, v, OPTION if is_opt else RESULT):
@@ -2302,7 +2473,7 @@ class Interp:
                         cargs = [e]
                     res = self._call_closure_value(p, frame, t, clos, cargs, depth, i)
                     if res is None:
-                        yield from self._opaque(path, frame, t, "citer::" + meth, [it] + list(rest), depth, havoc=True)
+                        yield from self._opaque_cont(path, frame, t, "citer::" + meth, [it] + list(rest), depth, havoc=True)
                         return
                     for o in res:
                         if o.kind != "return":
